@@ -661,6 +661,13 @@ def g_stack():
                 yield {"cls": "DiagonalStack", "ci": ci, "co": co, "ops": [_seeded(_leaf("mat", dt, (3,), (2,))), _seeded(_leaf("diag", dt, (2,)))]}
                 yield {"cls": "DiagonalStack", "ci": ci, "co": co, "ops": [_seeded(_leaf("diag", dt, (2, 2))), _seeded(_leaf("fdc", dt, (2, 2))), _seeded(_leaf("sid", dt, (2, 2)))]}
                 yield {"cls": "DiagonalStack", "ci": ci, "co": co, "ops": [_seeded(_leaf("gen", dt, (2,), (3,)))]}
+    # inputs collapse but outputs do not, and the reverse (the two sides of DiagonalStack pack with DIFFERENT rules: `_eval` by
+    # collapse_output, `_adj` by collapse_input)
+    for dt in [R64, C128]:
+        for ci, co in itertools.product([True, False], [True, False]):
+            yield {"cls": "DiagonalStack", "ci": ci, "co": co, "ops": [_seeded(_leaf("id", dt, (2, 3))), _seeded(_leaf("sum", dt, (2, 3)))]}
+            yield {"cls": "DiagonalStack", "ci": ci, "co": co,
+                   "ops": [_seeded(_leaf("id", dt, (3,))), _seeded(_leaf("sum", dt, (2, 3))), _seeded(_leaf("gen", dt, (2,), (3,)))]}
     # complex blocks with non-real matrices: DFT and complex generic
     for ci, co in itertools.product([True, False], [True, False]):
         yield {"cls": "DiagonalStack", "ci": ci, "co": co, "ops": [_seeded({**_leaf("dft", C64, (3,))}), _seeded(_leaf("gen", C64, (3,), (3,)))]}
